@@ -378,23 +378,29 @@ def run_unit(args):
 
 
 def run_units(jobs, workers=12, deadline=None):
-    """jobs: list of (uid, seed, opts); yields unit results in uid order (deterministic reporting)"""
+    """jobs: list of (uid, seed, opts); returns unit results in uid order (deterministic reporting).  After the deadline
+    units that have not started are dropped (they return at once: Unit.past_deadline); running ones are awaited."""
     WORK.mkdir(parents=True, exist_ok=True)
     out = {}
     with ProcessPoolExecutor(max_workers=workers) as pool:
         futs = {}
         for j in jobs:
             futs[pool.submit(run_unit, j)] = j[0]
+        cancelled = False
         for f in as_completed(futs):
             uid = futs[f]
+            if f.cancelled():
+                out[uid] = {"uid": uid, "seed": None, "status": "deadline", "results": []}
+                continue
             try:
                 out[uid] = f.result()
             except Exception as e:
                 out[uid] = {"uid": uid, "seed": None, "status": "harness-error", "detail": repr(e), "results": []}
-            if deadline and time.time() > deadline:
+            if deadline and time.time() > deadline and not cancelled:
+                cancelled = True
                 for g in futs:
-                    g.cancel()
-                break
+                    if g.cancel():
+                        out[futs[g]] = {"uid": futs[g], "seed": None, "status": "deadline", "results": []}
     return [out[k] for k in sorted(out)]
 
 
